@@ -47,6 +47,10 @@
         printf("Range File1: %d/%d  File2: %d/%d\n", i4_min_val1, i4_max_val1, i4_min_val2, i4_max_val2);    \
     }
 
+/* A NaN in exactly one of the two files is a difference that no "> limit" test can see (every comparison with a NaN is
+ * false).  Two NaNs, like two equal infinities, are equal content. */
+#define ONE_IS_NAN(X, Y) ((isnan(X) != 0) != (isnan(Y) != 0))
+
 /* Methods to compare the equality of floating-point values */
 #define H4_FLT_ABS_EQUAL(X, Y) (fabsf((X) - (Y)) < FLT_EPSILON)
 #define H4_DBL_ABS_EQUAL(X, Y) (fabs((X) - (Y)) < DBL_EPSILON)
@@ -533,7 +537,7 @@ array_diff(void *buf1, void *buf2, uint32 tot_cnt, const char *name1, const char
 
                     else
 
-                        if ((float)per > err_rel) {
+                        if ((float)per > err_rel || ONE_IS_NAN(*fptr1, *fptr2)) {
                         n_diff++;
                         if (n_diff <= max_err_cnt) {
                             print_pos(&ph, i, acc, pos, rank, name1, name2);
@@ -543,7 +547,7 @@ array_diff(void *buf1, void *buf2, uint32 tot_cnt, const char *name1, const char
                     }
                 }
 
-                else if (f_diff > err_limit) {
+                else if (f_diff > err_limit || ONE_IS_NAN(*fptr1, *fptr2)) {
                     n_diff++;
                     if (n_diff <= max_err_cnt) {
                         print_pos(&ph, i, acc, pos, rank, name1, name2);
@@ -611,7 +615,7 @@ array_diff(void *buf1, void *buf2, uint32 tot_cnt, const char *name1, const char
 
                     else
 
-                        if ((float)per > err_rel) {
+                        if ((float)per > err_rel || ONE_IS_NAN(*dptr1, *dptr2)) {
                         n_diff++;
                         if (n_diff <= max_err_cnt) {
                             print_pos(&ph, i, acc, pos, rank, name1, name2);
@@ -621,7 +625,7 @@ array_diff(void *buf1, void *buf2, uint32 tot_cnt, const char *name1, const char
                     }
                 }
 
-                else if (d_diff > (float64)err_limit) {
+                else if (d_diff > (float64)err_limit || ONE_IS_NAN(*dptr1, *dptr2)) {
                     n_diff++;
                     if (n_diff <= max_err_cnt) {
                         print_pos(&ph, i, acc, pos, rank, name1, name2);
